@@ -212,6 +212,84 @@ def h_framing(shape: int, cl1: bytes, cl2: bytes, tek: int, mask: int, te: bytes
         assert got == want, "framing differs from RFC 9112 6.3: want %r got %r" % (want, got)
 
 
+# ---- three (or more) Content-Length values: as header lines and/or list elements of one value; also on the
+# client side (responses go through the same _read_body).  Added after a seeding round showed that
+# "first == last, middle differs" ("3, 8, 3") is not reachable with two values.
+def pre_framing3(cl1: bytes, cl2: bytes, cl3: bytes, lst: int, client: bool) -> bool:
+    if not (0 <= lst <= 3 and len(cl1) <= P.LA and len(cl2) <= P.LB and len(cl3) <= P.LA):
+        return False
+    if client and lst > 1:
+        return False
+    cell = lst if not client else 4 + lst          # 0..5
+    return in_shard(cell * 2 + len(cl2) % 2)
+
+
+@harness(
+    pre=pre_framing3,
+    quick=dict(LA=1, LB=1, timeout=120, reach_timeout=60),
+    thorough=dict(LA=2, LB=3, timeout=1200, reach_timeout=120),
+    nshards=dict(quick=12, thorough=12),
+    reach=["reject_middle_differs", "accept_triple", "reject_middle_differs_client"],
+    units=["http1connection.HTTP1Connection._read_body", "http1connection.parse_int",
+           "httputil.HTTPHeaders.add", "httputil.HTTPHeaders.__getitem__"],
+    stubs=[FMT,
+           "three Content-Length values cl1/cl2/cl3 injected through the real HTTPHeaders.add as: three field lines "
+           "(lst=0), one line 'cl1,cl2,cl3' (1), one line 'cl1, cl2, cl3' (2), two lines 'cl1,cl2' + 'cl3' (3)",
+           "client=True (only lst 0 and 1): HTTP1Connection(is_client=True), status code 200 (response framing, "
+           "same _read_body)",
+           "body readers replaced by recorders; max_body_size = 2**40"],
+    outside=["values longer than the bounds, more than three values", "grey list shapes as in h_framing"],
+)
+def h_framing3(cl1: bytes, cl2: bytes, cl3: bytes, lst: int, client: bool):
+    """Three Content-Length values - on separate lines or inside one list value - frame the message only if
+    ALL are the same 1*DIGIT number; any differing value (first, middle or last) means rejection."""
+    if P.reach in ("reject_middle_differs", "reject_middle_differs_client") and not (
+            cl1 == cl3 and cl1 != cl2 and len(cl1) == 1 and len(cl2) == 1
+            and client == (P.reach == "reject_middle_differs_client")):
+        return   # reach twins only: prune towards the witness region
+    if P.reach == "accept_triple" and not (cl1 == cl2 and cl2 == cl3):
+        return
+    s1, s2, s3 = cl1.decode("latin-1"), cl2.decode("latin-1"), cl3.decode("latin-1")
+    if lst == 0:
+        cls = [s1, s2, s3]
+    elif lst == 1:
+        cls = [s1 + "," + s2 + "," + s3]
+    elif lst == 2:
+        cls = [s1 + ", " + s2 + ", " + s3]
+    else:
+        cls = [s1 + "," + s2, s3]
+    headers = httputil.HTTPHeaders()
+    try:
+        headers.add("Host", "x")
+        for v in cls:
+            headers.add("Content-Length", v)
+    except httputil.HTTPInputError:
+        return
+    want = ref_framing(cls, None)
+    with install() as env:
+        stream = FakeStream(env.loop, b"", eof=True)
+        conn = HTTP1Connection(stream, client, HTTP1ConnectionParameters(max_body_size=BIG))
+        conn._read_fixed_body = lambda n, d: ("fixed", n)
+        conn._read_chunked_body = lambda d: ("chunked",)
+        conn._read_body_until_close = lambda d: ("until_close",)
+        try:
+            got = conn._read_body(200 if client else 0, headers, object())
+            if got is None:
+                got = ("none",)
+        except httputil.HTTPInputError:
+            got = ("reject",)
+    if want[0] == "reject":
+        if _is_digits(s1) and _is_digits(s2) and s1 == s3 and s1 != s2:
+            reached("reject_middle_differs_client" if client else "reject_middle_differs")
+        assert got == ("reject",), "RFC 9112 6.3 demands rejection of %r, tornado chose %r" % (cls, got)
+    elif want[0] == "grey":
+        assert got == ("reject",) or got == ("fixed", want[1]), \
+            "lenient Content-Length list must frame to its numeric value or be rejected, got %r" % (got,)
+    else:
+        reached("accept_triple")
+        assert got == want, "framing differs from RFC 9112 6.3: want %r got %r" % (want, got)
+
+
 # =====================================================================================
 # unit 4: chunked decoding, driven through the real server loop (_server_request_loop ->
 # _read_message -> _read_body -> _read_chunked_body) with a pre-delimited concrete header block
